@@ -66,6 +66,16 @@ def g_comp(p_rows, p_key=lambda k_row: k_row):
     return l_tot, l_seen, l_set, [lambda z_arg=c_cap: z_arg + l_tot for c_cap in p_rows]
 g_table = [m_elt for m_elt in g_comp([[1]])]
 ''',
+    'keyword-only defaults are evaluated in the enclosing scope': '''
+def g_outer(p_seed, p_other):
+    def n_inner(q_a, *, q_k=p_seed, q_j=p_other):
+        return q_a, q_k, q_j, q_k, q_j
+    n_lam = lambda z_a, *, z_k=p_seed: (z_a, z_k, z_k, z_k)
+    class C_holder:
+        def c_meth(self_, *, m_k=p_other):
+            return m_k, m_k, m_k
+    return n_inner, n_lam, C_holder, p_seed, p_other
+''',
     'builtins used often (aliased at module level), a literal __all__': '''
 __all__ = ['g_api', 'g_other_api']
 def g_api(p_items):
@@ -647,3 +657,104 @@ def signatures(model, rep, rule, kinds, sigs):
                       '; '.join(problems[:3]) + ' -- output: %r' % text[:160], key=key)
     rep.count('parameters_renamed_in_place', in_place)
     rep.sensitive(in_place >= 10, 'only %d parameters are renamed in the signature on the probes: the signature rule has lost its sensitivity' % in_place)
+
+
+# ---------------------------------------------------------------------- names that are bound nowhere
+def free_names(text):
+    """Names some scope of the program treats as global and the module never binds: they are looked up in builtins or must be supplied by
+    whoever runs the module. (symtable: the interpreter's own resolution)"""
+    top = symtable.symtable(text, 'probe', 'exec')
+    bound_at_top = {s.get_name() for s in top.get_symbols() if s.is_assigned() or s.is_imported() or s.is_parameter()}
+    out = set()
+
+    def rec(t):
+        for s in t.get_symbols():
+            n = s.get_name()
+            if n.startswith('.'):
+                continue
+            if t is top:
+                if s.is_referenced() and n not in bound_at_top:
+                    out.add(n)
+            elif s.is_global() and n not in bound_at_top:
+                if s.is_assigned() and s.is_declared_global():
+                    continue      # global x; x = ...  binds it at module level
+                out.add(n)
+        for c in t.get_children():
+            rec(c)
+    rec(top)
+    declared = set()
+
+    def rec2(t):
+        for s in t.get_symbols():
+            if t is not top and s.is_declared_global() and s.is_assigned():
+                declared.add(s.get_name())
+        for c in t.get_children():
+            rec2(c)
+    rec2(top)
+    return out - declared
+
+
+def new_free_names(source, text):
+    """Names the output leaves unbound that the original did not: a reference that lost its binding (renamed on one side only, or resolved in
+    the wrong scope). Does not need one name per binding."""
+    try:
+        return sorted(free_names(text) - free_names(source))
+    except SyntaxError as e:
+        return ['<the output does not compile: %s>' % e]
+
+
+IDIOM_PROBES = {
+    'keyword-only default named like the outer variable it captures (def f(*, x=x))': '''
+def make_handlers(handler_names):
+    handlers = []
+    for handler_name in handler_names:
+        def handle(event, *, handler_name=handler_name, handlers=handlers):
+            return handler_name, event, len(handlers), handler_name
+        handlers.append(handle)
+    return handlers, handler_name
+''',
+    'positional default and lambda default named like the outer variable': '''
+def make_adders(amounts):
+    adders = [lambda value, amount=amount: value + amount + amount for amount in amounts]
+    def first(value, amounts=amounts):
+        return adders[0](value), amounts, amounts
+    return adders, first, amounts
+''',
+    'class attribute and method parameter share a name with an enclosing local': '''
+def build(registry):
+    class Entry:
+        registry = registry
+        def lookup(self, key, registry=registry):
+            return registry[key], registry
+    return Entry, registry, registry
+''',
+}
+
+
+def idioms(model, rep, rule):
+    """Probes in which one name is bound in several scopes (so the alpha-equivalence oracle does not apply): the output must compile, must not
+    leave a name unbound that the original binds, and must keep the structure."""
+    fi = model.func('python_minifier.minify')
+    for label, source in sorted(IDIOM_PROBES.items()):
+        for clabel, cfg in (('rename_locals', dict(rename_locals=True, rename_globals=False)), ('rename_locals and rename_globals', dict(rename_locals=True, rename_globals=True))):
+            key = '%s|idiom|%s|%s' % (rule, label, clabel)
+            try:
+                text = run_pipeline(model, source, **cfg)
+            except MinifyRaises as ex:
+                rep.violation(rule, fi.loc(), 'probe `%s`, %s' % (label, clabel), '%s: minify fails on a valid module' % ex, key=key)
+                continue
+            problems = []
+            lost = new_free_names(source, text)
+            if lost:
+                problems.append('the output refers to %s, which nothing binds any more (the original binds it)' % lost)
+            try:
+                a, b = ast.parse(source), ast.parse(text)
+                orig_names = {n.id for n in ast.walk(a) if isinstance(n, ast.Name)} | {n.arg for n in ast.walk(a) if isinstance(n, ast.arg)}
+                _strip_rebinds(b, orig_names, a)
+                pairs, structural = [], []
+                _walk_pairs(a, b, (), {}, pairs, structural)
+                problems += structural[:2]
+            except SyntaxError as e:
+                problems.append('the output does not parse: %s' % e)
+            rep.check(not problems, rule, fi.loc(), 'probe `%s`, %s -> %r' % (label, clabel, text[:70]), 'compiles, same structure, no reference loses its binding',
+                      '; '.join(problems[:3]) + ' -- output: %r' % text[:160], key=key)
